@@ -1,6 +1,7 @@
 """translator: AST scan of crystal/crystal.py -> Gen/CrystalCaches.lean
 
-memo slots   = attributes `_x` used as `if hasattr(self,"_x"): return getattr(self,"_x")` ... `setattr(self,"_x",…)`
+memo slots   = attributes `_x` used as `if hasattr(self,"_x"): return getattr(self,"_x")` ... `setattr(self,"_x",…)`, and any other private
+               attribute a method other than __init__ stores a non-constant value in
 fills        = for every method of Crystal, the memo slots it fills (transitively through `self.m()` / `self.m`)
 mutators     = methods other than __init__ that assign `self.unit_cell`, `self.space_group`,
                `self.asymmetric_unit` or `self.asymmetric_unit.positions`, with the slots each of them deletes
@@ -45,6 +46,22 @@ def scan():
             if a not in slot_method:
                 slot_method[a] = name
                 slots.append(a)
+    # any other private attribute that a method (not __init__) stores a computed value in is derived state as well, however it is read
+    # back later (`getattr(self, "_x", None)`, `self._x`, a tuple keyed on arguments, ...): constants (warn-once flags) excepted
+    for name, fn in methods.items():
+        if name == "__init__":
+            continue
+        for n in ast.walk(fn):
+            cands = []
+            if isinstance(n, ast.Assign):
+                cands = [(t.attr, n.value) for t in n.targets if _is_self_attr(t) and t.attr.startswith("_")]
+            elif isinstance(n, ast.Call) and isinstance(n.func, ast.Name) and n.func.id == "setattr" and len(n.args) == 3 and isinstance(n.args[0], ast.Name) \
+                    and n.args[0].id == "self" and isinstance(n.args[1], ast.Constant) and isinstance(n.args[1].value, str) and n.args[1].value.startswith("_"):
+                cands = [(n.args[1].value, n.args[2])]
+            for a, val in cands:
+                if a not in slot_method and not isinstance(val, ast.Constant):
+                    slot_method[a] = name
+                    slots.append(a)
     if not slots:
         raise TieBroken("no memoised attributes found in Crystal (pattern changed)")
     # direct references between methods
